@@ -674,6 +674,8 @@ Resumed(g, sf) == [x \in DOMAIN sf.loc |-> IF x \in SliceLocals(g) THEN EmptySli
 Enter(g, argf, fr) ==
     IF \E i \in 1..Len(stack) : stack[i].fn = g.name THEN Fault(V("recursion"))
     ELSE IF ParamViol(g, argf) THEN Fault(V("argument"))
+    ELSE IF \E i \in 1..Len(g.params) : g.params[i].kind = "slice" /\ argf[g.params[i].n].base[1] \in {"loc", "arg"}
+    THEN Fault(U("slice of a local array passed to a callee"))     \* (locations are per frame: outside the fragment)
     ELSE LET nf == IF HasSaved(g.name)
                    THEN LET sf == saved[g.name] IN
                         [sf EXCEPT !.args = argf, !.fi = Len(stack) + 1, !.loc = Resumed(g, sf),
